@@ -239,15 +239,24 @@ type hsCase struct {
 	StepName  string `json:"step_name,omitempty"`
 	Fault     string `json:"fault"`
 	Memfd     bool   `json:"memfd"`
+	Announce  int    `json:"announced_version,omitempty"` // raw client pairings: version put into the first message
 	Round     int    `json:"round"`
 }
 
 func (cs hsCase) key() string {
-	return fmt.Sprintf("%s/%s/%s/step%d%s/%s", cs.Pairing, cs.Transport, cs.Judged, cs.Step, cs.StepName, cs.Fault)
+	k := fmt.Sprintf("%s/%s/%s/step%d%s/%s", cs.Pairing, cs.Transport, cs.Judged, cs.Step, cs.StepName, cs.Fault)
+	if cs.Announce != 0 {
+		k += fmt.Sprintf("/announce%d", cs.Announce)
+	}
+	return k
 }
 
 func (cs hsCase) name() string {
-	return fmt.Sprintf("r%d-%s-%s-%d-%s", cs.Round, cs.Pairing, cs.Transport, cs.Step, cs.Fault)
+	n := fmt.Sprintf("r%d-%s-%s-%d-%s", cs.Round, cs.Pairing, cs.Transport, cs.Step, cs.Fault)
+	if cs.Announce != 0 {
+		n += fmt.Sprintf("-v%d", cs.Announce)
+	}
+	return n
 }
 
 // handshake hook points per library end (see protocol_manager.go / protocol_initializer.go)
@@ -270,7 +279,15 @@ func hsCaseList() []hsCase {
 	add(hsCase{Group: "pairing", Pairing: "lib-memfd-client+lib-server", Transport: "unix", Fault: "none", Memfd: true})
 	add(hsCase{Group: "pairing", Pairing: "raw-c3f+lib-server", Transport: "unix", Script: "c3f", Fault: "none"})
 	add(hsCase{Group: "pairing", Pairing: "raw-c3f+lib-server", Transport: "tcp", Script: "c3f", Fault: "none"})
+	add(hsCase{Group: "pairing", Pairing: "raw-c3m+lib-server", Transport: "unix", Script: "c3m", Fault: "none", Memfd: true})
 	add(hsCase{Group: "pairing", Pairing: "lib-memfd-client+lib-server", Transport: "tcp", Fault: "memfd-over-tcp-refused", Memfd: true})
+	// a client of a newer generation: it announces a version this server does not know (in the version exchange, or in the
+	// version byte of a protocol-2 style first message). Either both ends fail, or both succeed with min(announced, 3) = 3.
+	for _, v := range []int{4, 255} {
+		add(hsCase{Group: "pairing", Pairing: "raw-c3f+lib-server", Transport: "unix", Script: "c3f", Fault: "newer-client", Announce: v})
+		add(hsCase{Group: "pairing", Pairing: "raw-c3m+lib-server", Transport: "unix", Script: "c3m", Fault: "newer-client", Announce: v, Memfd: true})
+		add(hsCase{Group: "pairing", Pairing: "raw-c2f+lib-server", Transport: "unix", Script: "c2f", Fault: "newer-client", Announce: v})
+	}
 
 	// group 2: raw peer faults
 	type sc struct {
@@ -1190,7 +1207,7 @@ func hsRunPairing(c *checkCtx, cs hsCase, st *hsStats, noise bool) {
 	}()
 	a := hsEndArgs{Role: "server", Memfd: cs.Memfd, Prefix: prefix, InitTOms: int(hsOkTO.Milliseconds()), Serve: true, Noise: noise,
 		Seed: c.seed*1000 + int64(cs.Round*100000+cs.Idx)}
-	if cs.Fault != "none" {
+	if cs.Fault == "memfd-over-tcp-refused" {
 		a.InitTOms = int(hsInitTO.Milliseconds())
 	}
 	h, err := hsSpawnEnd(c, a, cs.Transport == "tcp")
@@ -1232,8 +1249,11 @@ func hsRunPairing(c *checkCtx, cs hsCase, st *hsStats, noise bool) {
 
 	rawClient := cs.Script != ""
 	clientVersion := 2
-	if cs.Memfd || rawClient {
+	if cs.Memfd || (rawClient && cs.Script != "c2f") {
 		clientVersion = 3
+	}
+	if cs.Announce != 0 {
+		clientVersion = cs.Announce
 	}
 	wantVersion := minInt(clientVersion, int(maxSupportProtoVersion))
 	nonce := make([]byte, 200)
@@ -1256,11 +1276,12 @@ func hsRunPairing(c *checkCtx, cs hsCase, st *hsStats, noise bool) {
 		}
 		defer raw.close()
 		defer raw.releaseShm()
-		conf := hsConf(prefix, false, hsOkTO)
-		if err := raw.createShm(prefix, false, conf.QueueCap, conf.ShareMemoryBufferCap, conf.BufferSliceSizes); err != nil {
+		conf := hsConf(prefix, cs.Memfd, hsOkTO)
+		if err := raw.createShm(prefix, cs.Memfd, conf.QueueCap, conf.ShareMemoryBufferCap, conf.BufferSliceSizes); err != nil {
 			c.inconclusiveCase(cs.name(), "raw createShm: "+err.Error())
 			return
 		}
+		raw.announce = uint8(cs.Announce)
 		cliErr = raw.rawClientHandshake(cs.Script, hsWatchdog)
 		cliVer = int(raw.version)
 		witness["raw_received"] = raw.received()
@@ -1291,6 +1312,27 @@ func hsRunPairing(c *checkCtx, cs hsCase, st *hsStats, noise bool) {
 		witness["client_error"] = cliErr.Error()
 	}
 	cliOK := cliErr == nil
+	if cs.Script == "c2f" {
+		// a protocol-2 style client gets no acknowledgement: it cannot tell, only the server's outcome counts
+		cliOK = res.Session
+		cliVer = wantVersion
+		raw.version = uint8(wantVersion)
+	}
+	if cs.Announce != 0 && !cliOK && !res.Session {
+		// refused on both ends: legal. The refusing server must not keep anything.
+		cm, ok := h.expect("census", hsWatchdog+hsCensusWait, &seen)
+		witness["child_messages"] = seen
+		if ok && len(cm.Left) > 0 {
+			c.violation(cs.name(), witness, "the server refused the client announcing version %d (%s) but left behind: %v", cs.Announce, res.Err, cm.Left)
+			return
+		}
+		c.count("newer_client_refused_on_both_ends", 1)
+		c.nontrivial(cs.key())
+		if cs.Round == 0 && cs.Announce == 255 && cs.Script == "c3f" {
+			c.sample(map[string]interface{}{"case": cs.key(), "server_error": res.Err, "raw_client_error": fmt.Sprint(cliErr)})
+		}
+		return
+	}
 	if cliOK != res.Session {
 		c.violation(cs.name(), witness, "no fault injected: client success=%v (err=%v) but server success=%v (err=%s)", cliOK, cliErr, res.Session, res.Err)
 		return
@@ -1312,6 +1354,12 @@ func hsRunPairing(c *checkCtx, cs hsCase, st *hsStats, noise bool) {
 			if int(rr.Version) != wantVersion && eventType(rr.Type) == typeAckShareMemory {
 				c.violation(cs.name(), witness, "the server's acknowledgement carries version %d, negotiated is %d", rr.Version, wantVersion)
 			}
+			if eventType(rr.Type) == typeExchangeProtoVersion && (rr.Version == 0 || int(rr.Version) > int(maxSupportProtoVersion)) {
+				c.violation(cs.name(), witness, "the server answered the version exchange with version %d, which it does not support itself (1..%d)", rr.Version, maxSupportProtoVersion)
+			}
+		}
+		if cs.Announce != 0 {
+			c.count("newer_client_accepted_with_min_version", 1)
 		}
 	}
 	// the very same memory: inodes of both processes' mappings (the child reports its own /proc/self/maps)
